@@ -21,7 +21,7 @@ ITER_TOOLS = ["zip", "map", "filter", "filterfalse", "enumerate", "iter", "accum
               "starmap", "zip_longest", "merge"]
 AGG_TOOLS = ["all", "any", "sum", "reduce", "min", "max", "list", "tuple", "set", "dict",
              "sorted", "nlargest", "nsmallest"]
-LAZY_TOOLS = ITER_TOOLS + ["all", "any"]  # C05 scope
+LAZY_TOOLS = ITER_TOOLS + ["all", "any", "anext"]  # C05 scope (anext: one pull per call)
 ADAPTERS = ["any_iter", "await_each", "apply", "sync"]  # C19
 
 INVARIANTS = ["NoUseAfterFault", "NoPullAfterStop", "DeclZip", "DeclZipStrict", "DeclChain",
@@ -117,7 +117,7 @@ def judge(args):
     cfg = case["cfg"]
     tool = cfg["tool"]
     kind = case_kind(case)
-    exp_log = tm.noneify(case["log"]) if tool in tm.NONE_TOOLS else case["log"]
+    exp_log = tm.noneify(case["log"], cfg["par"].get("dflt") == "none") if tool in tm.NONE_TOOLS else case["log"]
     out = {"viol": [], "mach": [], "n": {}}
 
     def cnt(k, v=1):
@@ -470,7 +470,7 @@ SCOPE = {
     "C02": AGG_TOOLS,
     "C04": ITER_TOOLS + AGG_TOOLS,
     "C05": LAZY_TOOLS,
-    "C06": ITER_TOOLS + AGG_TOOLS,
+    "C06": ITER_TOOLS + AGG_TOOLS + ["anext"],
 }
 
 
